@@ -836,6 +836,10 @@ func c03InfoMutations(add c03Adder, acc c03InfoAcc) {
 			seen[t] = true
 			add("leniency", "timeout-in-grace-window", tpos, fmt.Sprintf("e-%d", d), nil, setTimeout(proto.Int64(t)))
 		}
+		if e < 500 && !seen[0] {
+			// the low end of the window for short timeouts (a negative remaining time is not a value a server reports)
+			add("leniency", "timeout-in-grace-window", tpos, "zero", nil, setTimeout(proto.Int64(0)))
+		}
 		for _, v := range []struct {
 			how string
 			t   int64
@@ -1192,7 +1196,7 @@ func TestVerifC03(t *testing.T) {
 	r.Rule = "enumeration: (expected result E) x (identity | leniency rewrite | single deviation) x (position, variant); " +
 		"E = distinct (stream type, other allowed codes, expected response) of the expanded embedded corpus (size-limit payloads once per shape) " +
 		"followed by the grammar product (quick: at most two non-base coordinates besides the stream type; thorough: full product), simplest first; " +
-		"the size-limit expectations come last and, in the quick tier, get only the identity and the payload / echoed-request deviations. " +
+		"the size-limit expectations come last and, in the quick tier, get only the identity and (unary, full-duplex) the payload / echoed-request deviations. " +
 		"distinct_nontrivial counts (E, kind, position, variant) tuples whose rewritten actual result differs (proto.Equal) from E; identity pairs are evaluated but not counted."
 
 	var replay *c03Replay
@@ -1317,11 +1321,14 @@ outer:
 		}
 		muts := c03Mutations(e.Def)
 		if c03IsBig(e.Def) && !rep.Thorough() && replay == nil {
-			// quick tier: one assert on a 200 KB expectation costs about a second, so only the
-			// rewrites that touch the padded messages are run there
+			// quick tier: one assert on a 200 KB expectation costs about a second of CPU, so only the
+			// rewrites that touch the padded messages are run there, on the unary and the full-duplex
+			// expectation; the identity is run on all five
+			st := e.Def.Request.GetStreamType()
+			stKept := st == conformancev1.StreamType_STREAM_TYPE_UNARY || st == conformancev1.StreamType_STREAM_TYPE_FULL_DUPLEX_BIDI_STREAM
 			kept := muts[:0]
 			for _, m := range muts {
-				if strings.HasPrefix(m.Kind, "payload-") || strings.HasPrefix(m.Kind, "echoed-request-") {
+				if stKept && (strings.HasPrefix(m.Kind, "payload-") || strings.HasPrefix(m.Kind, "echoed-request-")) {
 					kept = append(kept, m)
 				} else {
 					skippedBig++
@@ -1329,7 +1336,6 @@ outer:
 			}
 			muts = kept
 		}
-		dbgStart, dbgEval := time.Now(), r.Evaluations
 		for i := -1; i < len(muts); i++ {
 			var m *c03Mut
 			if i >= 0 {
@@ -1352,13 +1358,10 @@ outer:
 			}
 			mine++
 			if !deadline.IsZero() && (mine%64 == 0 || c03IsBig(e.Def)) && time.Now().After(deadline) {
-				r.NotExhaustive(fmt.Sprintf("budget reached in expected result %s (cases are ordered corpus first, then grammar simplest first)", e.ID))
+				r.NotExhaustive(fmt.Sprintf("budget reached in expected result %s (order: corpus, grammar simplest first, size-limit cases of the corpus last)", e.ID))
 				break outer
 			}
 			evalOne(e, m)
-		}
-		if os.Getenv("C03_DEBUG") != "" && time.Since(dbgStart) > 200*time.Millisecond {
-			fmt.Printf("DEBUG %s %s: %d muts %d evals %v size %d\n", e.ID, e.Source, len(muts), r.Evaluations-dbgEval, time.Since(dbgStart), proto.Size(e.Def))
 		}
 	}
 	if r.Shard == 0 {
